@@ -59,13 +59,19 @@ type histScn struct {
 	ops                          []histOp
 	script                       []histAct
 	end                          int64
+	noBatchEvents                bool   // the Batcher is built WITHOUT WithEmitBatch(): no batch events (monitor-only traces)
 	lst                          string // listener-driven actions "event:ACTS,..." (another goroutine performs ACTS while the event is being delivered; letters P Pause, X stop, F Flush)
 }
 
 func (s histScn) key() string {
 	var sb strings.Builder
-	fmt.Fprintf(&sb, "hist gen=%d buf=%d lim=%d maxcap=%d cap=%d flush=%d capi=%d audit=%d mot=%d pause=%d eof=%d mcb=%d end=%d lst=%s w=",
+	fmt.Fprintf(&sb, "hist gen=%d buf=%d lim=%d maxcap=%d cap=%d flush=%d capi=%d audit=%d mot=%d pause=%d eof=%d mcb=%d end=%d lst=%s ",
 		s.gen, s.buf, b01(s.lim), s.maxcap, s.cap0, s.flush, s.capi, s.audit, s.mot, s.pau, b01(s.eof), s.mcb, s.end, dash(s.lst))
+	if s.noBatchEvents {
+		sb.WriteString("emb=0 w=")
+	} else {
+		sb.WriteString("w=")
+	}
 	for i, w := range s.ws {
 		if i > 0 {
 			sb.WriteByte(';')
@@ -103,7 +109,7 @@ func histFromKV(kv map[string]string) histScn {
 	i64 := func(k string) int64 { n, _ := strconv.ParseInt(kv[k], 10, 64); return n }
 	s := histScn{gen: atoi(kv["gen"]), buf: atou(kv["buf"]), lim: kv["lim"] == "1", maxcap: atou(kv["maxcap"]), cap0: atou(kv["cap"]),
 		flush: i64("flush"), capi: i64("capi"), audit: i64("audit"), mot: i64("mot"), pau: i64("pause"), eof: kv["eof"] == "1",
-		mcb: atoi(kv["mcb"]), end: i64("end"), lst: kv["lst"]}
+		mcb: atoi(kv["mcb"]), end: i64("end"), lst: kv["lst"], noBatchEvents: kv["emb"] == "0"}
 	if s.lst == "-" {
 		s.lst = ""
 	}
@@ -265,7 +271,7 @@ func runHist(s histScn) (line string) {
 	synctestRun(func() {
 		lg.start = time.Now()
 		c := bcfg{gen: s.gen, buf: s.buf, flush: time.Duration(s.flush), capInt: time.Duration(s.capi), audit: time.Duration(s.audit),
-			mot: time.Duration(s.mot), pause: time.Duration(s.pau), errorOnFull: s.eof, mcb: s.mcb, emitBatch: true}
+			mot: time.Duration(s.mot), pause: time.Duration(s.pau), errorOnFull: s.eof, mcb: s.mcb, emitBatch: !s.noBatchEvents}
 		if s.gen == 1 {
 			c.mcb = -1
 		}
@@ -579,6 +585,7 @@ func histRandom(r *rng, profile string) histScn {
 		s.pau = int64(r.pick(750, 2500, 50250)) * (ms / 1000) // pause times that are not whole milliseconds
 	}
 	s.eof = r.chance(1, 4)
+	s.noBatchEvents = r.chance(1, 7)
 	s.mcb = 0
 	if s.gen == 2 && r.chance(1, 2) {
 		s.mcb = r.pick(1, 1, 2, 3)
